@@ -78,6 +78,10 @@ class _BlackbirdPrinter(StrPrinter):
     Blackbird a sign binds tighter than ``**`` (``-a**2`` is ``(-a)**2``), so a
     negated product that starts with a power is written ``-1*a**2...``."""
 
+    def _print_ImaginaryUnit(self, expr):
+        # written as the Blackbird literal (a free parameter may be called I)
+        return "1j"
+
     def _print_Mul(self, expr):
         text = super()._print_Mul(expr)
         if text.startswith("-") and _starts_with_power(text[1:]):
@@ -157,14 +161,12 @@ def _format_value(v, tdm=False):
     if isinstance(expr, sym.Expr):
         # the expression contains free parameters: enclose each of them in braces,
         # matching whole identifiers only (not parts of other names or of numbers);
-        # SymPy's imaginary unit I is written as the Blackbird literal 1j
+        # SymPy's imaginary unit is written as the Blackbird literal 1j by the printer
         names = {str(p) for p in v.free_symbols} if isinstance(v, sym.Expr) else set()
 
         def _identifier(m):
             if m.group(0) in names:
                 return "{" + m.group(0) + "}"
-            if m.group(0) == "I":
-                return "1j"
             return m.group(0)
 
         return re.sub(
